@@ -283,7 +283,7 @@ Proof.
   intros Hv Hb Hl. unfold tensor_from.
   assert (E : validate_dimensions sh (N.of_nat (length data)) = true)
     by (apply validate_dimensions_spec; repeat split; try apply Hv; auto; lia).
-  rewrite E. split; [reflexivity|]. repeat split; try apply Hv. cbn. lia.
+  rewrite E. split; [reflexivity|]. split; [exact Hv|]. split; [reflexivity|]. cbn [t_data t_shape]. lia.
 Qed.
 
 Theorem zip_with_ok (f : A -> A -> A) x y : operand_wf x -> operand_wf y ->
